@@ -17,14 +17,23 @@ open AioslskVerif.Transfer AioslskVerif.Generated.Transfer AioslskVerif.Spec.Tra
 /-- **Sequential part.** Whatever a state class does in an overridden method ends in a transition
 along a documented edge — and to the state the method is named after. -/
 theorem C03_table_sound (d : Dir) (s : St) (m : Meth) (s' : St) (e : List Eff)
-    (h : implStep d s m = some (s', e)) : edge d s s' = true ∧ s' = target d m :=
-  table_sound h
+    (h : implStep d s m = some (s', e)) : edge d s s' = true ∧ s' = target d m := by
+  have hc : (match implStep d s m with
+      | some (t, _) => edge d s t && decide (t = target d m)
+      | none => true) = true := by
+    cases d <;> cases s <;> cases m <;> decide
+  rw [h] at hc
+  simpa using hc
 
 /-- A request is accepted by a state class exactly when the documented graph has the edge from that
 state to the request's target (the frozen graph is neither wider nor narrower than the code). -/
 theorem C03_table_complete (d : Dir) (s : St) (m : Meth) :
-    (implStep d s m).isSome = edge d s (target d m) :=
-  table_complete_check d s m
+    (implStep d s m).isSome = edge d s (target d m) := by
+  cases d <;> cases s <;> cases m <;> decide
+
+/-- the part of `C03_table_sound` the induction uses -/
+theorem C03_table_edges : TableSound :=
+  fun d s m t e h => (C03_table_sound d s m t e h).1
 
 /-- **Refusal is pure.** When the state the wrapper dispatches on does not override the method, being
 granted the lock changes nothing — not the state, no field (reasons, timestamps, local path, file,
@@ -42,7 +51,7 @@ an edge of the documented graph. -/
 theorem C03_concurrent (cfg : Cfg) (hm : cfg.mode = .current) (s : St) (f : Fields) (ops : List XOp) :
     ∀ p ∈ events (run cfg (init s f) ops), edge cfg.dir p.1 p.2 = true := by
   intro p hp
-  have hinv := run_inv cfg hm ops _ (init_inv cfg s f)
+  have hinv := run_inv C03_table_edges cfg hm ops _ (init_inv cfg s f)
   simp only [events, List.mem_filterMap, List.mem_reverse] at hp
   obtain ⟨it, hmem, hsome⟩ := hp
   cases it with
@@ -59,7 +68,7 @@ theorem C03_pending_is_edge (cfg : Cfg) (hm : cfg.mode = .current) (s : St) (f :
     (ops : List XOp) (p : Pending) (h : (run cfg (init s f) ops).holder = some p)
     (hn : p.notified = false) :
     edge cfg.dir (run cfg (init s f) ops).cur p.target = true :=
-  (run_inv cfg hm ops _ (init_inv cfg s f)).pending p h hn
+  (run_inv C03_table_edges cfg hm ops _ (init_inv cfg s f)).pending p h hn
 
 /-- **Refused ⇒ no effect, all op lists.** The trace of who-did-what is a sequence of blocks, each
 either a lone `ret id false` or the effects of a single call followed by its one listener event and
@@ -71,7 +80,7 @@ theorem C03_refused_no_effect (cfg : Cfg) (hm : cfg.mode = .current) (s : St) (f
     Shape (phaseOf (run cfg (init s f) ops).holder) (run cfg (init s f) ops).trace ∧
     ∀ pre id rest, (run cfg (init s f) ops).trace = pre ++ .ret id false :: rest →
       rest = [] ∨ ∃ id' ok rest', rest = .ret id' ok :: rest' := by
-  have hinv := run_inv cfg hm ops _ (init_inv cfg s f)
+  have hinv := run_inv C03_table_edges cfg hm ops _ (init_inv cfg s f)
   exact ⟨hinv.shape, hinv.shape.refusal_isolated⟩
 
 /-- The wrapper of the pinned commit runs the method of the state object the caller looked up
@@ -102,6 +111,19 @@ example :
       [.call { id := 0, meth := .abort, reason := some 0 }, .call { id := 1, meth := .pause }, .resume]
     x.cur = .aborted ∧ events x = [(.downloading, .aborted)] ∧ x.holder = none ∧ x.waiters = [] ∧
       x.trace.head? = some (.ret 1 false) := by decide
+
+/-- a suspended *listener* holds the lock after the state is already assigned. `FAILED`, two `queue()`
+coroutines created first and scheduled together (as manager.py:586-589 does with `gather`): the second
+is dispatched on `QUEUED` and refused — the pinned wrapper made `QUEUED → QUEUED` of it. -/
+example :
+    let cfg : Cfg := { dir := .upload, slowCancel := false, slowFs := false, slowListener := true }
+    let ops : List XOp := [.create { id := 0, meth := .queue }, .create { id := 1, meth := .queue },
+                           .start 0, .start 1]
+    let x := run cfg (init .failed { failReason := some 2 }) ops
+    x.cur = .queued ∧ (x.holder.map (·.notified)) = some true ∧ x.waiters.length = 1 ∧
+      events (run cfg x [.resume, .resume]) = [(.failed, .queued)] ∧
+      events (run { cfg with mode := .captured } (init .failed { failReason := some 2 }) (ops ++ [.resume, .resume]))
+        = [(.failed, .queued), (.queued, .queued)] := by decide
 
 /-- the graph and the table are not trivial: 32 documented pairs, 31 overridden methods -/
 example : edgeCount = 32 ∧ overriddenCount = 31 := by decide
